@@ -506,9 +506,86 @@ def build_template(name: str) -> InstanceFile:
     return InstanceFile(vmf)
 
 
+
+# ------------------------------------------------------------------ instance inputs / outputs (io proxy)
+def proj_out(o: Output) -> dict:
+    none = [0]
+    return {'o': cp(o.output), 't': cp(o.target), 'i': cp(o.input), 'p': cp(o.params), 'd': int(round(o.delay * 1000)),
+            'n': int(o.times), 'io': none if o.inst_out is None else cp(o.inst_out),
+            'ii': none if o.inst_in is None else cp(o.inst_in)}
+
+
+IO_OUTS = {
+    'pa': lambda: Output('OnPressed', 'proxy', 'ProxyRelay', delay=0.25),
+    'pb': lambda: Output('OnUser1', 'PROXY', 'proxyrelay', 'inner_param', delay=0.5, times=3),
+    'pa2': lambda: Output('OnPressed', 'proxy', 'ProxyRelay', 'second', delay=1.0, times=1),
+    'n': lambda: Output('OnDamaged', 'inner', 'Trigger', '$x'),
+}
+
+
+def io_conns(cs: int) -> list:
+    if cs == 1:
+        return [Output('OnPressed', 'door_out', 'Open', delay=1.0, inst_out='button'),
+                Output('OnUser1', 'counter', 'Add', '1', delay=0.125, times=5, inst_out='button'),
+                Output('OnUser2', 'lamp', 'TurnOn', inst_out='button'),            # nothing relays OnUser2
+                Output('onpressed', 'second', 'Close', times=1, inst_out='BUTTON'),  # a second connection, other case
+                Output('OnPressed', 'plain', 'Kill'),                              # not an instance output
+                Output('OnPressed', 'other', 'Kill', inst_out='inner')]            # entity without that relay
+    return [Output('OnUser1', 'only', 'Fire', 'p', delay=2.0, times=2, inst_out='button'),
+            Output('OnUser1', 'relay2', 'Trigger', inst_out='relay')]
+
+
+def run_io(sc: dict, out: hlib.RecWriter, src_tag: str = 'scen') -> None:
+    """One instance I/O scenario: outputs of entities of the file aimed at the io proxy, connections of the
+    func_instance out of the instance, outputs of an outside entity into it."""
+    tv = VMF()
+    proxy = tv.create_ent('func_instance_io_proxy', targetname='proxy', origin='4 0 0')
+    proxy.add_out(Output('OnProxyRelay', 'door', 'open', delay=0.5),
+                  Output('OnProxyRelay', 'Inner', 'Trigger', 'from_proxy', times=1),
+                  Output('OnUser1', 'door', 'Kill'))
+    tv.create_ent('logic_relay', targetname='inner', origin='8 0 0')
+    relay = tv.create_ent('logic_relay', targetname='relay', origin='8 8 0')
+    relay.add_out(Output('OnTrigger', 'proxy', 'ProxyRelay'), Output('OnUser1', 'proxy', 'ProxyRelay', delay=0.125))
+    button = tv.create_ent('func_button', targetname='button', origin='16 0 0')
+    for a in sc['arr']:
+        button.add_out(IO_OUTS[a]())
+    tv.create_ent('func_door', targetname='door', origin='0 16 0')
+    src = [{'name': cp(e['targetname']), 'cls': e['classname'], 'outs': [proj_out(o) for o in e.outputs]} for e in tv.entities]
+    file = InstanceFile(tv)
+    tplouts = [[proj_out(o) for o in e.outputs] for e in file.vmf.entities]
+    table = FIX_TABLES[1]
+    inst = Instance('A', 'io.vmf', Vec(64, 0, 0), Matrix.from_yaw(90), FixupStyle(sc['style']), io_conns(sc['cs']),
+                    [FixupValue(k, v, i + 1) for i, (k, v) in enumerate(table)])
+    vmf = VMF()
+    trig = vmf.create_ent('trigger_once', targetname='trig')
+    trig.add_out(Output('OnTrigger', 'A', 'open', delay=1.0, inst_in='door'),          # matches the proxy input as written
+                 Output('OnTrigger', 'A', 'Open', 'keep', delay=0.25, times=1, inst_in='door'),   # same input, other case
+                 Output('OnTrigger', 'a', 'trigger', 'mine', inst_in='inner'),         # instance name in other case
+                 Output('OnTrigger', 'A', 'open', inst_in='nomatch'),
+                 Output('OnTrigger', 'A', 'open'),
+                 Output('OnTrigger', 'B', 'open', inst_in='door'))
+    opre = [proj_out(o) for o in trig.outputs]
+    pre_outs = [o.copy() for o in trig.outputs]
+    old = {id(e) for e in vmf.entities}
+    conns = [proj_out(o) for o in inst.outputs]
+    collapse_one(vmf, inst, file)
+    placed = [[proj_out(o) for o in e.outputs] for e in vmf.entities if id(e) not in old]
+    opost = [proj_out(o) for o in trig.outputs]
+    out.write({'k': 'io', 'src': src, 'tplouts': tplouts,
+               'inst': {'name': cp('A'), 'style': sc['style'], 'fix': [[cp(k), cp(v)] for k, v in table]},
+               'conns': conns, 'placed': placed, 'opre': opre, 'opost': opost,
+               'sig': {'kind': 'io', 'action': 'collapse', 'src': src_tag, 'style': sc['style'], 'arr': ' '.join(sc['arr']),
+                       # some outside output names the inner entity / input in another case than the folded table key
+                       'input_case': any(o.inst_in is not None and (o.inst_in != o.inst_in.casefold() or o.input != o.input.casefold())
+                                         for o in pre_outs)},
+               'hist': {'gen': 'io', 'sc': sc}})
+
 # ------------------------------------------------------------------ mode: scen
 def run_scen(sc: dict, out: hlib.RecWriter, src: str = 'scen') -> None:
     """One TLC-generated scenario: a template and a sequence of instances collapsed from one cached file."""
+    if sc['t'] == 'io':
+        run_io(sc, out, src)
+        return
     file = build_template(sc['t'])
     pristine = proj_template(file.vmf)
     h0 = tpl_hash(file.vmf)
@@ -1127,7 +1204,9 @@ def numeric_mode(out_path: str, rng: random.Random, thorough: bool) -> None:
 # ------------------------------------------------------------------ replay
 def regenerate(hist: dict, out: hlib.RecWriter) -> None:
     g = hist['gen']
-    if g == 'scen':
+    if g == 'io':
+        run_io(hist['sc'], out, 'replay')
+    elif g == 'scen':
         run_scen(hist['sc'], out, 'replay')
     elif g == 'random':
         random_case(hist['seed'], out)
